@@ -62,18 +62,18 @@ func (env *specEnv) lvalue(e *Expr) []modLoc {
 			switch e.Args[0].Name {
 			case "elems":
 				s := env.tr(e.Args[1])
-				sl, ok := s.Typ.Underlying().(*types.Slice)
+				_, ok := s.Typ.Underlying().(*types.Slice)
 				if !ok {
 					sfail("modifies: elems of non-slice")
 				}
-				return []modLoc{{Comp: vc.S.arrComp(sl.Elem()), Ref: "(s_arr " + s.T + ")", Src: e.String()}}
+				return []modLoc{{Comp: vc.S.arrComp(s.Typ), Ref: "(s_arr " + s.T + ")", Src: e.String()}}
 			case "spare": // spare capacity of a slice: [off+len, off+cap)
 				s := env.tr(e.Args[1])
-				sl, ok := s.Typ.Underlying().(*types.Slice)
+				_, ok := s.Typ.Underlying().(*types.Slice)
 				if !ok {
 					sfail("modifies: spare of non-slice")
 				}
-				return []modLoc{{Comp: vc.S.arrComp(sl.Elem()), Ref: "(s_arr " + s.T + ")",
+				return []modLoc{{Comp: vc.S.arrComp(s.Typ), Ref: "(s_arr " + s.T + ")",
 					Lo: "(+ (s_off " + s.T + ") (s_len " + s.T + "))", Hi: "(+ (s_off " + s.T + ") (s_cap " + s.T + "))", Src: e.String()}}
 			case "mapof":
 				m := env.tr(e.Args[1])
@@ -90,7 +90,9 @@ func (env *specEnv) lvalue(e *Expr) []modLoc {
 		inner := e.Args[0]
 		if inner.Op == "call" && inner.Args[0].Op == "ident" && inner.Args[0].Name == "elems" {
 			s := env.tr(inner.Args[1])
-			sl := s.Typ.Underlying().(*types.Slice)
+			if _, ok := s.Typ.Underlying().(*types.Slice); !ok {
+				sfail("modifies: elems of non-slice")
+			}
 			lo, hi := "0", "(s_len "+s.T+")"
 			if e.Args[1] != nil {
 				lo = env.tr(e.Args[1]).T
@@ -98,7 +100,7 @@ func (env *specEnv) lvalue(e *Expr) []modLoc {
 			if e.Args[2] != nil {
 				hi = env.tr(e.Args[2]).T
 			}
-			return []modLoc{{Comp: vc.S.arrComp(sl.Elem()), Ref: "(s_arr " + s.T + ")",
+			return []modLoc{{Comp: vc.S.arrComp(s.Typ), Ref: "(s_arr " + s.T + ")",
 				Lo: "(+ (s_off " + s.T + ") " + lo + ")", Hi: "(+ (s_off " + s.T + ") " + hi + ")", Src: e.String()}}
 		}
 	}
@@ -118,7 +120,8 @@ func (vc *VC) frameFacts(c *Component, hn, ho, bound string, locs []modLoc) []st
 	var out []string
 	vc.ctr++
 	r := fmt.Sprintf("r!%d", vc.ctr)
-	guards := []string{"(<= 0 " + r + ")", "(< " + r + " " + bound + ")"}
+	// (no lower bound: negative references are never allocated or written)
+	guards := []string{"(< " + r + " " + bound + ")"}
 	for _, l := range mine {
 		guards = append(guards, not(eq(r, l.Ref)))
 	}
@@ -409,6 +412,7 @@ func (f *Frame) havocComps(comps []string, all bool, locs []modLoc, framed bool,
 			}
 			ho := vc.heapOf(st, c)
 			hn := vc.declare(c.Name, c.Sort)
+			vc.heapTypeInv(c, hn, vc.curBlk)
 			st.heap[c.Name] = hn
 			if framed {
 				for _, fact := range vc.frameFacts(c, hn, ho, bound, locs) {
@@ -437,7 +441,7 @@ func (f *Frame) unknownCall(x ssa.CallInstruction, fn *ssa.Function, sig *types.
 			case *types.Pointer:
 				comps = append(comps, vc.S.cellComp(u.Elem()).Name)
 			case *types.Slice:
-				comps = append(comps, vc.S.arrComp(u.Elem()).Name)
+				comps = append(comps, vc.S.arrComp(sig.Params().At(i).Type()).Name)
 			}
 		}
 		if r := sig.Recv(); r != nil {
@@ -633,6 +637,9 @@ func (f *Frame) calleeEffects(con *Contract, fn *ssa.Function, sig *types.Signat
 	if fn != nil && fn.Pkg != nil && vc.P.Module[fn.Pkg.Pkg] && len(fn.Blocks) > 0 {
 		return vc.P.effects(fn)
 	}
+	if con.ifaceEff != nil {
+		return con.ifaceEff
+	}
 	e := newEffectSet()
 	for _, l := range locs {
 		e.comps[l.Comp.Name] = true
@@ -651,7 +658,7 @@ func (f *Frame) calleeEffects(con *Contract, fn *ssa.Function, sig *types.Signat
 			case *types.Pointer:
 				e.comps[vc.S.cellComp(u.Elem()).Name] = true
 			case *types.Slice:
-				e.comps[vc.S.arrComp(u.Elem()).Name] = true
+				e.comps[vc.S.arrComp(sig.Results().At(i).Type()).Name] = true
 			}
 		}
 	}
@@ -695,6 +702,23 @@ func (f *Frame) invoke(x *ssa.Call, c *ssa.CallCommon, at string, st *State) *Va
 	}
 	info := vc.S.ifaceInfoOf(n)
 	f.safe("nil", x, at, not(eq(recv, info.Nil)))
+	iname := shortPkg(n.Obj().Pkg().Path()) + "." + n.Obj().Name() + "." + c.Method.Name()
+	if con, ok := vc.SS.Ifaces[iname]; ok {
+		// interface-method contract: one modular step instead of a case split; each
+		// implementing method is separately verified against this contract
+		if con.ifaceEff == nil {
+			e := newEffectSet()
+			for _, T := range info.Impls {
+				if m := vc.P.Prog.LookupMethod(T, c.Method.Pkg(), c.Method.Name()); m != nil {
+					e.union(vc.P.effects(m))
+				}
+			}
+			con.ifaceEff = e
+		}
+		all := append([]*Val{{T: recv}}, args...)
+		rsig := types.NewSignatureType(types.NewVar(0, nil, "recv", c.Value.Type()), nil, nil, sig.Params(), sig.Results(), sig.Variadic())
+		return f.applyContract(x, con, nil, rsig, iname, all, nil, at, st)
+	}
 	type branch struct {
 		cond string
 		val  *Val
